@@ -85,7 +85,7 @@ func dSpan(s value.DateSpan) string {
 }
 
 func dDT(t *value.DateTime) string {
-	n := t.ToGoTime()
+	n := t.ToGoTime().UTC()
 	return fmt.Sprintf("%d %d %d %d %d %d %d", n.Year(), int(n.Month()), n.Day(), n.Hour(), n.Minute(), n.Second(), n.Nanosecond())
 }
 
